@@ -63,6 +63,7 @@ type Gen struct {
 	errSt           State
 	volatile        map[string]bool
 	lockSt          State
+	staleInv        []string
 	interfered      map[string]bool // guarded fields havocked at lock acquisition (interference, not our writes)
 	frameStructural map[string]bool
 	errQuantDone    bool
